@@ -1107,6 +1107,18 @@ def _argmax(trace, args, avals, params, prim):
 OOB = [0]
 
 
+_STRIP_CACHE: dict = {}
+
+
+def _stripped_id(f):
+    i = f.get_id()
+    r = _STRIP_CACHE.get(i)
+    if r is None:
+        t = strip_tags(f)
+        r = _STRIP_CACHE[i] = (t.get_id(), t)  # keep the term alive so that the id stays valid
+    return r[0]
+
+
 def _fresh_fill(dtype, key=None):
     """unconstrained value for an out-of-range read.  With `key` (ids of the index terms + position)
     the same read in another run of the same computation gets the same symbol."""
@@ -1175,7 +1187,7 @@ def _gather(trace, args, avals, params, prim):
                     # a sound over-approximation (if the branch were feasible, obligations fail and the
                     # replay decides)
                     if mode_name == "FILL_OR_DROP" or symbolic_path[0]:
-                        key = tuple((("id", f.get_id()) if isinstance(f, z3.ExprRef) else repr(f)) for f in (_py(force(x)) for x in full)) + (tuple(prefix), tuple(operand.shape))
+                        key = tuple((("id", _stripped_id(f)) if isinstance(f, z3.ExprRef) else repr(f)) for f in (_py(force(x)) for x in full)) + (tuple(prefix), tuple(operand.shape))
                         return _fresh_fill(avals[0].dtype, key)
                     raise Unsupported(f"gather out of bounds {prefix}")
                 return operand[tuple(prefix)]
@@ -1324,17 +1336,50 @@ def _dynamic_slice(trace, args, avals, params, prim):
     return (out, core.ShapedArray(sizes, avals[0].dtype))
 
 
-@rule("cumsum")
-def _cumsum(trace, args, avals, params, prim):
-    a = to_obj(args[0])
-    ax = params["axis"]
-    if params["reverse"]:
-        raise Unsupported("reverse cumsum")
-    out = a.copy()
-    at = np.moveaxis(out, ax, 0)
-    for i in range(1, at.shape[0]):
-        at[i] = np.asarray(V["add"](at[i - 1], at[i]), dtype=object)
-    return (out, avals[0])
+@rule("sort")
+def _sort(trace, args, avals, params, prim):
+    """stable sort along one dimension by the first operand (bubble network of compare-exchanges)"""
+    if params.get("num_keys", 1) != 1:
+        raise Unsupported("sort with several keys")
+    dim = params["dimension"]
+    ops = [np.moveaxis(to_obj(a).copy(), dim, -1) for a in args]
+    n = ops[0].shape[-1]
+    for idx in np.ndindex(*ops[0].shape[:-1]):
+        rows = [list(o[idx]) for o in ops]
+        for i in range(n):
+            for j in range(n - 1 - i):
+                swap = _cmp("gt", rows[0][j], rows[0][j + 1])
+                if swap is False:
+                    continue
+                for r in rows:
+                    a, b = r[j], r[j + 1]
+                    r[j], r[j + 1] = ite(swap, b, a), ite(swap, a, b)
+        for o, r in zip(ops, rows):
+            for k in range(n):
+                o[idx + (k,)] = r[k]
+    outs = [(np.moveaxis(o, -1, dim), av) for o, av in zip(ops, avals)]
+    return outs if prim.multiple_results else outs[0]
+
+
+def _cum(opname):
+    def r(trace, args, avals, params, prim):
+        a = to_obj(args[0])
+        ax = params["axis"]
+        out = a.copy()
+        at = np.moveaxis(out, ax, 0)
+        if params["reverse"]:
+            at = at[::-1]
+        for i in range(1, at.shape[0]):
+            at[i] = np.asarray(V[opname](at[i - 1], at[i]), dtype=object)
+        return (out, avals[0])
+
+    return r
+
+
+RULES["cumsum"] = _cum("add")
+RULES["cummax"] = _cum("max")
+RULES["cummin"] = _cum("min")
+RULES["cumprod"] = _cum("mul")
 
 
 @rule("scan")
